@@ -127,7 +127,8 @@ def _worker_entry(args):
     virtual instant, a state space blown up by a defect) is reported as a violation instead of hanging the check."""
     import signal
 
-    func, item, seed, tier = args
+    func, item, seed, tier = args[:4]
+    debug = len(args) > 4 and args[4]
 
     def on_alarm(signum, frame):
         raise _ItemTimeout()
@@ -139,6 +140,10 @@ def _worker_entry(args):
     except (ValueError, AttributeError):
         old = None
     try:
+        if debug:
+            with loggers_at_debug():
+                acc = func(item, seed, tier)
+            return _tag_debug(acc)
         return func(item, seed, tier)
     except _ItemTimeout:
         acc = Acc()
@@ -151,6 +156,48 @@ def _worker_entry(args):
         if old is not None:
             signal.setitimer(signal.ITIMER_REAL, 0)
             signal.signal(signal.SIGALRM, old)
+
+
+class loggers_at_debug:
+    """The library's loggers at DEBUG (output discarded): how the repository's own tests, and anyone chasing a problem, run it.  Code that
+    builds a debug dump only runs then; no result may depend on it."""
+
+    def __enter__(self):
+        import logging
+
+        lg = logging.getLogger("aiohomekit")
+        self.saved = (lg, lg.level, lg.propagate, list(lg.handlers), logging.root.manager.disable)
+        logging.disable(logging.NOTSET)
+        lg.setLevel(logging.DEBUG)
+        lg.propagate = False
+        lg.handlers = [logging.NullHandler()]
+        return self
+
+    def __exit__(self, *exc):
+        import logging
+
+        lg, level, prop, handlers, disabled = self.saved
+        lg.setLevel(level)
+        lg.propagate = prop
+        lg.handlers = handlers
+        logging.disable(disabled)
+        return False
+
+
+def _tag_debug(acc):
+    """Results of the pass with the loggers at DEBUG: separate evaluations, signatures tagged, replay told to switch the loggers on."""
+    if not isinstance(acc, Acc):
+        return acc
+    acc.keys = {h64(("loggers-at-debug", k)) for k in acc.keys}
+    acc.state_keys = {h64(("loggers-at-debug", k)) for k in acc.state_keys}
+    for v in acc.viol:
+        v["signature"] += ":loggers-at-debug"
+        if isinstance(v.get("params"), dict):
+            v["params"]["_loglevel"] = "debug"
+    acc.viol_count = Counter({k + ":loggers-at-debug": n for k, n in acc.viol_count.items()})
+    acc.symbols = Counter({"loggers-at-debug:" + k: n for k, n in acc.symbols.items()})  # vacuity guards count the plain pass only
+    acc.extra["evaluations_with_loggers_at_debug"] += acc.n
+    return acc
 
 
 _POOL = None
@@ -182,12 +229,16 @@ class Ctx:
         items = list(items)
         if not items:
             return
-        if not parallel or WORKERS <= 1 or len(items) == 1:
-            results = (_worker_entry((func, it, self.seed, self.tier)) for it in items)
+        jobs = [(func, it, self.seed, self.tier) for it in items]
+        dp = os.environ.get("VERIF_DEBUG_PASS") or self.meta.get("debug_pass", "quick")  # 'quick' (both tiers) | 'thorough' | 'none' 
+        if dp == "quick" or dp == "1" or (dp == "thorough" and self.tier == "thorough"):
+            # the same work once more with the library's loggers at DEBUG (an environment dimension no result may depend on)
+            jobs += [(func, it, self.seed, self.tier, True) for it in items]
+            self.bounds["loggers"] = "every work item is run twice: loggers silenced, and the library's loggers at DEBUG (signatures of the second pass end in :loggers-at-debug)"
+        if not parallel or WORKERS <= 1 or len(jobs) == 1:
+            results = (_worker_entry(j) for j in jobs)
         else:
-            results = pool().imap_unordered(
-                _worker_entry, [(func, it, self.seed, self.tier) for it in items], chunksize=1
-            )
+            results = pool().imap_unordered(_worker_entry, jobs, chunksize=1)
         for r in results:
             if isinstance(r, tuple) and r and r[0] == "__harness_error__":
                 raise HarnessError(f"worker failed on {r[2]}:\n{r[1]}")
@@ -220,7 +271,8 @@ def finish(ctx: Ctx) -> int:
     unknown = []
     known_hit = {}
     for v in acc.viol:
-        k = next((k for k in known if fnmatch.fnmatchcase(v["signature"], k["signature"])), None)
+        plain = v["signature"][: -len(":loggers-at-debug")] if v["signature"].endswith(":loggers-at-debug") else v["signature"]
+        k = next((k for k in known if fnmatch.fnmatchcase(plain, k["signature"])), None)
         if k is not None:
             known_hit.setdefault(k["signature"], (k, 0))
             known_hit[k["signature"]] = (k, known_hit[k["signature"]][1] + 1)
